@@ -441,9 +441,9 @@ func tapeSize(t *Tapes) int {
 }
 
 // shrink minimises the tapes while the same violation class persists.
-func shrink(p *pool, seed uint64, index int, t *Tapes, class string, budget time.Duration) (*Tapes, int) {
+func shrink(p *pool, seed uint64, index int, t *Tapes, class, sig string, budget time.Duration) (*Tapes, int) {
 	deadline := time.Now().Add(budget)
-	same := func(r *Result) bool { return r != nil && r.Viol != nil && r.Viol.Class == class }
+	same := func(r *Result) bool { return r != nil && r.Viol != nil && r.Viol.Class == class && r.Viol.Sig == sig }
 	cur := cloneTapes(t)
 	for i := 0; i < 4; i++ {
 		*tapeRef(cur, i) = trimZeros(*tapeRef(cur, i))
@@ -727,7 +727,7 @@ func main() {
 			if *tier == "thorough" {
 				sb = 180 * time.Second
 			}
-			minT, evals := shrink(p, seed, v.Index, v.Tapes, v.Viol.Class, sb)
+			minT, evals := shrink(p, seed, v.Index, v.Tapes, v.Viol.Class, v.Viol.Sig, sb)
 			final := p.eval(seed, v.Index, minT)
 			if final.Viol == nil || final.Viol.Class != v.Viol.Class {
 				minT = v.Tapes
